@@ -1344,18 +1344,23 @@ def build_pyramid(torch, fwd_family, outputs, op):
 
 
 def _cotangent(torch, rng, t, layout):
-    """Gradient handed to backward for output t.  `expand` is what
+    """Gradient handed to backward for output t.  `bcast` is what
     `t.sum().backward()` passes (a scalar broadcast with stride 0); the others
-    are ordinary non-contiguous tensors."""
+    are the memory layouts inputs are drawn in (transposed, strided, offset,
+    channels_last - what a channels_last network hands back -, expanded batch,
+    slices of a larger buffer)."""
     shape = tuple(t.shape)
-    if layout == "expand":
+    if layout in ("expand_scalar", "bcast"):
         return torch.from_numpy(rng.standard_normal(())).to(t.dtype).expand(shape)
-    if layout == "transposed" and len(shape) >= 2:
-        sh = shape[:-2] + (shape[-1], shape[-2])
-        return torch.from_numpy(rng.standard_normal(sh)).to(t.dtype).transpose(-1, -2)
-    if layout == "step" and len(shape) >= 1:
-        sh = shape[:-1] + (2 * shape[-1],)
-        return torch.from_numpy(rng.standard_normal(sh)).to(t.dtype)[..., ::2]
+    if layout != "contig" and DTNAME.get(t.dtype) in ("float32", "float64") and len(shape) >= 1:
+        spec = {"shape": list(shape), "dtype": DTNAME[t.dtype], "layout": layout,
+                "seed": int(rng.integers(1 << 30)), "scale": 1.0}
+        try:
+            v = make_tensor(spec)[1]
+            if tuple(v.shape) == shape:
+                return v
+        except Exception:  # noqa - a layout that does not exist for this rank
+            pass
     return torch.from_numpy(rng.standard_normal(shape)).to(t.dtype)
 
 
